@@ -143,6 +143,14 @@ class Ctx:
         decls = [(m.start(), m.group(2)) for m in re.finditer(r'^(Theorem|Lemma|Example|Corollary|Fact)\s+([A-Za-z0-9_\']+)', src, re.M)]
         line_of = lambda pos: src.count('\n', 0, pos) + 1
         obs = [Obligation(name, os.path.relpath(path, VERIF)) for _, name in decls]
+        bad = audit_source(src)
+        if bad:
+            # a declared axiom / admitted proof / disabled kernel check: nothing in the file is believed
+            for o in obs:
+                o.ok = False
+                o.detail = 'audit: forbidden declaration in %s: %s' % (os.path.basename(path), bad)
+            self.obligations += obs
+            return False, obs, 'audit: ' + bad
         with self.timed('prove'):
             rc, out, err, dt = self.coqc(path, timeout)
         first_bad = None
@@ -172,6 +180,14 @@ class Ctx:
         self.assumptions_out[os.path.basename(path)] = {(names[i] if i < len(names) else k): v
                                                          for i, (k, v) in enumerate(pa.items())}
         self.timings['coqc:' + os.path.basename(path)] = round(dt, 2)
+        # every axiom a property theorem rests on must be one the standard library itself declares
+        foreign = sorted({a for v in pa.values() if v.startswith('Axioms: ')
+                          for a in v[len('Axioms: '):].split(', ') if not STDLIB_AXIOM.match(a)})
+        if foreign and rc == 0:
+            for o in obs:
+                o.ok = False
+                o.detail = 'Print Assumptions reports axioms not declared by the standard library: ' + ', '.join(foreign)
+            return False, obs, 'foreign axioms: ' + ', '.join(foreign)
         return rc == 0, obs, err
 
     # ---------------------------------------------------------------- OCaml
@@ -297,6 +313,34 @@ def load_known(prop):
                 if isinstance(frag, dict):
                     items += frag.get('findings', [])
     return {k['key']: k for k in items if k.get('property') == prop and k.get('status', 'known') == 'known'}
+
+
+STDLIB_AXIOM = re.compile(r"^(ClassicalDedekindReals\.|Classical_Prop\.|classic$|FunctionalExtensionality\.|functional_extensionality|"
+                          r"PrimInt63\.|Uint63\.|PrimFloat\.|FloatAxioms\.|Eqdep\.|JMeq\.|ProofIrrelevance\.|proof_irrelevance$|"
+                          r"ClassicalEpsilon\.|ClassicalUniqueChoice\.|ClassicalChoice\.|ChoiceFacts\.|Rdefinitions\.|Raxioms\.|"
+                          r"PropExtensionality\.|IndefiniteDescription\.|Epsilon\.|Description\.)")
+
+_FORBIDDEN = re.compile(r"\b(Admitted|admit|Axiom|Axioms|Parameter|Parameters|Conjecture|Conjectures|Admit Obligations|"
+                        r"Unset Guard Checking|Unset Positivity Checking|Unset Universe Checking|bypass_check|native_compute)\b")
+
+
+def audit_source(src):
+    """forbidden declarations in a Coq source (comments and Print Assumptions lines ignored); '' when clean"""
+    out, depth, i = [], 0, 0
+    while i < len(src):                      # strip (possibly nested) comments
+        if src.startswith('(*', i):
+            depth += 1; i += 2
+        elif src.startswith('*)', i) and depth:
+            depth -= 1; i += 2
+        else:
+            if not depth:
+                out.append(src[i])
+            i += 1
+    code = ''.join(out)
+    hits = [m.group(0) for m in _FORBIDDEN.finditer(code)]
+    if re.search(r'^\s*(Variable|Variables|Hypothesis|Hypotheses)\b', code, re.M) and not re.search(r'^\s*Section\b', code, re.M):
+        hits.append('Variable/Hypothesis outside a Section')
+    return ', '.join(sorted(set(hits)))
 
 
 def _slug(s):
